@@ -1,7 +1,7 @@
 """C17 — partial and alternative readers agree with the full reader."""
 from checks.gdscommon import same, nontrivial, classify  # noqa
 CONFIG = {
-    "manifest": {'level_text': "Coq theorems (closed under the global context): info_agrees - for EVERY byte stream accepted by the strict GDSII grammar decoder, the summary scan gds_info (statement-level model incl. its layer / next-set state) reports exactly the cell names (in order), polygon / path / reference / label counts, shape- and label-tag sets and UNITS patterns of the layout that the full reader loads from the same bytes; filter_commutes - for every byte stream whatsoever and every tag set, loading with a filter equals loading everything and discarding the other polygons and paths, order included (simulation on the reader model); the loader never reads the timestamp words of BGNLIB / BGNSTR, so rewriting them cannot change what is loaded; the unit and timestamp queries on any prefix give an error or the complete file's values. rawcells_agree - for every grammar-accepted stream the statement-level model of read_rawcells (name table, byte offsets and sizes, dependency resolution at ENDLIB) records exactly the names and referenced names of the structures the full reader loads, each recorded byte range is the record sequence BGNSTR..ENDSTR of its structure and the ranges tile the structure section of the file (copying them back in order between the header and ENDLIB reproduces the stream). gds_info, read_rawcells, filtered loads and the timestamp rewrite are compared with their extracted models on every generated file, and every clause is also decided on the implementation by oracles. The case labels of the record switches of gds_info and read_rawcells are regenerated from the source on every run and proved to be exactly the record types their models react to.", 'level_note': 'Target-unit rescaling is decided per run by an implementation-level oracle (floating-point scaling); the transplant of a SUBSET of raw cells into a new library through GdsWriter is decided by an oracle too (the theorem covers the recorded ranges and the in-order copy). The tag sets are compared as sets (gds_info keeps insertion order without duplicates).', 'technique': 'Coq proofs (grammar-directed agreement of summary scan and full reader; simulation for the tag filter) + extracted-model differential run + implementation-level oracles'},
+    "manifest": {'level_text': "Coq theorems (closed under the global context): info_agrees - for EVERY byte stream accepted by the strict GDSII grammar decoder, the summary scan gds_info (statement-level model incl. its layer / next-set state) reports exactly the cell names (in order), polygon / path / reference / label counts, shape- and label-tag sets and UNITS patterns of the layout that the full reader loads from the same bytes; filter_commutes - for every byte stream whatsoever and every tag set, loading with a filter equals loading everything and discarding the other polygons and paths, order included (simulation on the reader model); the loader never reads the timestamp words of BGNLIB / BGNSTR, so rewriting them cannot change what is loaded; the unit and timestamp queries on any prefix give an error or the complete file's values. rawcells_agree - for every grammar-accepted stream the statement-level model of read_rawcells (name table, byte offsets and sizes, dependency resolution at ENDLIB) records exactly the names and referenced names of the structures the full reader loads, each recorded byte range is the record sequence BGNSTR..ENDSTR of its structure and the ranges tile the structure section of the file (copying them back in order between the header and ENDLIB reproduces the stream); rawcells_transplant - ANY selection of the recorded ranges, in any order, copied between the library header and ENDLIB is accepted by the grammar and decodes to exactly the selected cells (the grammar never looks past ENDEL / ENDSTR: locality lemmas for every grammar combinator). gds_info, read_rawcells, filtered loads and the timestamp rewrite are compared with their extracted models on every generated file, and every clause is also decided on the implementation by oracles. The case labels of the record switches of gds_info and read_rawcells are regenerated from the source on every run and proved to be exactly the record types their models react to.", 'level_note': 'Target-unit rescaling is decided per run by an implementation-level oracle (floating-point scaling); the transplant of a subset of raw cells through the real GdsWriter (its own header) is additionally decided by an oracle on the implementation. The tag sets are compared as sets (gds_info keeps insertion order without duplicates).', 'technique': 'Coq proofs (grammar-directed agreement of summary scan and full reader; simulation for the tag filter) + extracted-model differential run + implementation-level oracles'},
     "prop_file": "Properties_C17",
     "extract_file": "Extract_Gds",
     "extracted": ["gds"],
